@@ -46,7 +46,7 @@ def main():
                     meta['status'] = 'patch does not apply to the current tree (overlaps a fix: commit); not evaluated'
                     print(pid, n, meta['status'])
                 else:
-                    rc, o = sh('git diff > %s/applied.diff' % wt, cwd=wt)
+                    rc, o = sh('git diff HEAD > %s/applied.diff' % wt, cwd=wt)
                     rc_t, o_t = sh('%s -m pytest -q -x -p no:cacheprovider --timeout=900' % PY, cwd=wt)
                     meta['suite_passes_with_patch'] = rc_t == 0
                     meta['suite_tail'] = o_t.strip().split('\n')[-1][:200]
@@ -62,7 +62,7 @@ def main():
                     meta['detected_by_quick_check'] = rc_c == 1
                     os.makedirs(out, exist_ok=True)
                     shutil.copy(os.path.join(wt, 'applied.diff'), os.path.join(out, 'patch.diff'))
-                    sh('git checkout -- . && git clean -fdq', cwd=wt)
+                    sh('git reset -q --hard HEAD && git clean -fdq', cwd=wt)
                     rc_d0, o_d0 = sh('%s %s' % (PY, demo), cwd=wt, timeout=1200)
                     meta['demo_passes_without_patch'] = rc_d0 == 0
                     print(pid, n, 'applied', meta['applied'], 'suite', meta['suite_passes_with_patch'], 'demo fail/pass',
